@@ -147,6 +147,37 @@ pub struct ExplOut {
 #[cfg(feature = "explanations")]
 pub fn run_expl(ops: &[XOp], max_pairs: usize, printers: bool) -> Result<ExplOut, String> {
     type L = Main;
+    // half of the histories (a hash of the history decides): another e-graph lived on this thread before — the same terms
+    // inserted in the same order (hence the same class ids), but *other* equations asserted (each term with its successor,
+    // under labels of its own) and explained.  Nothing of it may show up in the explanations of the e-graph under test
+    {
+        let key = enc_xops(ops);
+        let h = key.bytes().fold(0xcbf29ce484222325u64, |h, b| (h ^ b as u64).wrapping_mul(0x100000001b3)) >> 11;
+        if h % 2 == 1 {
+            let mut warm: EGraph<L> = EGraph::default();
+            let mut tr: Vec<(AppliedId, RecExpr<L>)> = Vec::new();
+            for op in ops {
+                if let XOp::Base(Op::Add(t)) = op {
+                    let re = to_recexpr::<L>(t);
+                    if let Ok(a) = guarded(|| warm.add_syn_expr(re.clone())) {
+                        tr.push((a, re));
+                    }
+                }
+            }
+            for i in 0..tr.len().saturating_sub(1) {
+                let (a, b) = (tr[i].0.clone(), tr[i + 1].0.clone());
+                if a.slots() == b.slots() || a.slots().is_empty() || b.slots().is_empty() {
+                    let _ = guarded(|| warm.union_justified(&a, &b, Some(format!("warm{i}"))));
+                }
+            }
+            for i in 0..tr.len().saturating_sub(1).min(3) {
+                if warm.eq(&tr[i].0, &tr[i + 1].0) {
+                    let (x, y) = (tr[i].1.clone(), tr[i + 1].1.clone());
+                    let _ = guarded(|| warm.explain_equivalence(x, y));
+                }
+            }
+        }
+    }
     let mut eg: EGraph<L> = EGraph::default();
     let mut rules_used: Vec<usize> = Vec::new();
     let mut tracked: Vec<AppliedId> = Vec::new();
@@ -457,7 +488,8 @@ pub fn run(ctx: &mut Ctx) {
     let max_pairs = ctx.param("max_pairs", 6);
     for _ in 0..ctx.count {
         let mut rng = ctx.rng.fork();
-        let (ops, stream): (Vec<XOp>, &str) = match rng.below(10) {
+        let (ops, stream): (Vec<XOp>, &str) = match rng.below(11) {
+            10 => (gen_ground(&mut rng).into_iter().map(XOp::Base).collect(), "ground"),
             9 => (crate::suites::eg::gen_late_redundancy2(&mut rng).into_iter().map(XOp::Base).collect(), "latered2"),
             8 => (crate::suites::eg::gen_late_redundancy(&mut rng).into_iter().map(XOp::Base).collect(), "latered"),
             0 | 1 => (gen_congr(&mut rng).into_iter().map(XOp::Base).collect(), "congr"),
@@ -469,6 +501,36 @@ pub fn run(ctx: &mut Ctx) {
         };
         ctx.emit(exec_expl(ops, stream, max_pairs));
     }
+}
+
+/// closed terms only (symbols, numbers and operators over them): their classes have no slots, so class ids are all that
+/// distinguishes the equations of two e-graphs
+#[cfg(feature = "explanations")]
+fn gen_ground(rng: &mut crate::rng::Rng) -> Vec<Op> {
+    use crate::terms::CField as F;
+    let sym = |s: &str| ATerm { v: 16, fields: vec![F::Lit(s.into())], children: vec![] };
+    let un = |v: usize, a: ATerm| ATerm { v, fields: vec![F::App], children: vec![a] };
+    let bin = |v: usize, a: ATerm, b: ATerm| ATerm { v, fields: vec![F::App, F::App], children: vec![a, b] };
+    let n = rng.range(3, 4);
+    let names = ["a", "b", "c", "d"];
+    let mut terms: Vec<ATerm> = (0..n).map(|i| sym(names[i])).collect();
+    for i in 0..rng.range(1, 3) {
+        let x = terms[rng.below(n)].clone();
+        let y = terms[rng.below(n)].clone();
+        terms.push(if i % 2 == 0 { un(13, x) } else { bin(14, x, y) });
+    }
+    let mut ops: Vec<Op> = terms.iter().cloned().map(Op::Add).collect();
+    // a few equations between the leaves, never the chain leaf i = leaf i+1 for all i
+    for _ in 0..rng.range(1, 2) {
+        let (i, j) = (rng.below(n), rng.below(n));
+        if i != j && (i + 1 != j) && (j + 1 != i) {
+            ops.push(Op::Union(i, j));
+        } else if n >= 3 {
+            ops.push(Op::Union(0, 2));
+        }
+    }
+    ops.push(Op::Query);
+    ops
 }
 
 #[cfg(feature = "explanations")]
